@@ -148,8 +148,9 @@ class KindFlow:
     """Producer side: for every function of a parser impl, the element kinds its returned items may have;
     and the contents of every container variant."""
 
-    def __init__(self, lib, impl_prefix, elem_enum, item_ctor, container_variants, extra_struct=None, item_marker="Item"):
+    def __init__(self, lib, impl_prefix, elem_enum, item_ctor, container_variants, extra_struct=None, item_marker="Item", hir_override=None):
         self.lib = lib
+        self.hir_override = hir_override or {}
         self.prefix = impl_prefix
         self.enum = elem_enum                   # e.g. asca::parser::ParseElement
         self.item_ctor = item_ctor              # e.g. asca::parser::Item::new
@@ -340,7 +341,7 @@ class KindFlow:
 
     def step(self, f):
         b = self.fns[f]
-        root = b.hir["body"]
+        root = self.hir_override.get(f) or b.hir["body"]
         for n in hirq.walk(root):
             k = n["e"]
             if k == "let" and n.get("init") is not None:
@@ -705,7 +706,9 @@ def _rule_type_discharge(ctx, r):
     # (1) split_into_subrules classifies exactly on (input[0].kind, output[0].kind)
     sp = ctx.fn(lib, "asca::rule::Rule::split_into_subrules")
     table = []
-    for m in hirq.matches(sp):
+    # the classification may sit in a helper of Rule: look through helper calls
+    sp_root = hirq.inline_helpers(lib, sp)
+    for m in [n for n in hirq.walk(sp_root) if n["e"] == "match"]:
         if (m.get("sty") or "").startswith("(&asca::parser::ParseElement, &asca::parser::ParseElement)"):
             for arm in m["arms"]:
                 p = arm["pat"]
@@ -718,7 +721,9 @@ def _rule_type_discharge(ctx, r):
                 for n in hirq.walk(arm["body"]):
                     if n["e"] == "path" and "rule::RuleType::" in (n.get("path") or ""):
                         res = n["path"].rsplit("::", 1)[-1]
-                    if n["e"] == "ret":
+                    if n["e"] in ("ret", "ret_inl"):
+                        res = "Err"
+                    if n["e"] == "call" and (hirq.strip(n["f"]).get("path") or "").endswith("Result::Err"):
                         res = "Err"
                 table.append((a[0], a[1], res))
     want = [("EmptySet", "EmptySet", "Err"), ("EmptySet", "Metathesis", "Err"), ("EmptySet", "wild", "Insertion"), ("wild", "EmptySet", "Deletion"),
@@ -848,8 +853,17 @@ APE = "asca::alias::parser::AliasParseElement"
 def pan4(ctx):
     r = RuleResult("PAN-4", "no element kind the alias parser can produce on a side of a (de)romaniser reaches an unreachable! arm of word parsing / rendering", floor=9)
     lib = ctx.lib
+    # a helper that builds the Transformations for both producers is expanded into each of them (context sensitivity)
+    TR = "asca::alias::Transformation"
+    builds = lambda cb: any(n["e"] == "struct" and n.get("path") == TR for n in hirq.walk(cb.hir["body"]))
+    override = {}
+    for b_ in lib.bodies:
+        if b_.path.startswith("asca::alias::parser::AliasParser::") and b_.hir and b_.kind in ("assoc_fn", "fn") and not builds(b_):
+            t_ = hirq.inline_helpers(lib, b_, only_if=builds)
+            if any(n.get("inl") for n in hirq.walk(t_)):
+                override[b_.path] = t_
     kf = KindFlow(lib, "asca::alias::parser::AliasParser::", APE, "asca::alias::parser::AliasItem::new", {},
-                  extra_struct={"asca::alias::Transformation": ("input", "output")})
+                  extra_struct={TR: ("input", "output")}, hir_override=override)
     all_variants = [v["name"] for v in lib.adts[APE]["variants"]]
     # which producer does AliasParser::parse call for which kind
     ap = ctx.fn(lib, "asca::alias::parser::AliasParser::parse")
